@@ -586,8 +586,74 @@ def run(ctx):
     res = [x for x in pmap(one, keys, workers=8) if x]
     for s in res[:5]:
         ctx.sample(s)
+    executed_layout(ctx, quick)
     ctx.sample({"example_python_expression": "_binary.MapSerializer(_binary.int8_serializer, _binary.FixedVectorSerializer(_binary.uint16_serializer, 2))",
                 "its_plan": repr(plan_of("_binary.MapSerializer(_binary.int8_serializer, _binary.FixedVectorSerializer(_binary.uint16_serializer, 2))", "py"))})
+
+
+def executed_layout(ctx, quick):
+    """the plans as *executed*: for covering values every target that can run here (generated C++, generated Python in copy_to / list / Fortran-order
+    modes) reads the reference encoding and writes it back; what it writes must decode, under the reference plan, to the same values - a target that
+    lays out a field, an array shape, an enum base or a union tag differently from the plan produces bytes that decode differently."""
+    from vlib import rt, values
+    from vlib.common import rng
+    items = [("samename", None), ("enumbase", None)] + [("ser", k) for k in corpus.ser_keys(3 if quick else 40, "p")]
+
+    def build(kind, key):
+        if kind == "samename":
+            return None
+        return corpus.enum_base_package() if kind == "enumbase" else corpus.ser_package(key, depth=3)
+
+    def one(item):
+        kind, key = item
+        pkg = build(kind, key)
+        if pkg is None:
+            return
+        m = rt.prepare_model(ctx, "c14x_" + (key or kind), pkg, ["plain"])
+        if m is None:
+            return
+        c = m.codec
+        eps = [rt.CppEndpoint(m, "plain"), rt.PyEndpoint(m), rt.PyEndpoint(m, mode="list"), rt.PyEndpoint(m, mode="fortran")]
+        for proto in pkg.protocols():
+            for k in range(2 if quick else 4):
+                vals = values.ValueGen(c, rng("C14x", key or kind, proto.name, k), quiet_nan_only=True).steps(proto, stream_len=3)
+                data = c.encode_stream(proto, m.schema(proto.name), vals)
+                ctx.case(("executed", key or kind, proto.name, k))
+                for ep in eps:
+                    r = ep.copy(proto.name, "bin", "bin", data)
+                    ctx.ev()
+                    ctx.count("executed." + ep.name)
+                    rt.judge(ctx, m, proto, vals, data, r, ep.name, "bin", "executed layout %s/%s set %d" % (key or kind, proto.name, k), {"executed": True})
+        m.close()
+
+    pmap(one, items, workers=6)
+    # arrays of rank 2 and 3 of every bulk-copied element type handed to the Python writer in C order, Fortran order and as transposed views
+    f32t, f64t = P("float32"), P("float64")
+    rec = Rec("LyPix", [("a", f32t), ("b", f32t)])
+    pkg = Pkg("Layout", [rec, Proto("LyP", [("img", A(f32t, 2)), ("vol", A(f64t, 3)), ("bytes", A(P("uint8"), 2)), ("cplx", A(P("complexfloat32"), 2)), ("fixed", A(P("int8"), ((None, 3), (None, 4)))),
+                                           ("dyn", A(f64t, None)), ("pix", A(N("LyPix"), 2)), ("ints", A(P("int32"), 2)), ("frames", S(A(f32t, 2)))])])
+    m = rt.prepare_model(ctx, "c14x_layout", pkg, ["plain"])
+    if m is None:
+        raise Inconclusive("layout model did not build")
+    from vlib.refcodec import f32, f64
+    c = m.codec
+    proto = pkg.find("LyP")
+    vals = [((3, 5), [f32(float(j)) for j in range(15)]), ((2, 3, 4), [f64(float(j) / 4) for j in range(24)]), ((4, 3), [(7 * j) % 251 for j in range(12)]),
+            ((2, 3), [(f32(float(j)), f32(-float(j))) for j in range(6)]), ((3, 4), [j - 6 for j in range(12)]), ((2, 2, 2), [f64(float(j)) for j in range(8)]),
+            ((2, 3), [[f32(float(j)), f32(float(j) + 0.5)] for j in range(6)]), ((3, 2), [j * 1000 for j in range(6)]),
+            [((2, 3), [f32(float(i * 10 + j)) for j in range(6)]) for i in range(3)]]
+    data = c.encode_stream(proto, m.schema("LyP"), vals)
+    ctx.case(("executed-layout-arrays",))
+    for ep in (rt.CppEndpoint(m, "plain"), rt.PyEndpoint(m), rt.PyEndpoint(m, mode="fortran"), rt.PyEndpoint(m, mode="list")):
+        r = ep.copy("LyP", "bin", "bin", data)
+        ctx.ev()
+        ctx.count("executed-arrays." + ep.name)
+        ok = rt.judge(ctx, m, proto, vals, data, r, ep.name, "bin", "arrays of rank 2 / 3 through %s" % ep.name, {"executed": True})
+        if ok and ep.name != "cpp-plain":
+            r2 = rt.CppEndpoint(m, "plain").copy("LyP", "bin", "bin", r.out)
+            ctx.ev()
+            rt.judge(ctx, m, proto, vals, r.out, r2, "cpp-plain", "bin", "arrays written by %s read by C++" % ep.name, {"executed": True})
+    m.close()
 
 
 def replay(ctx, path):
